@@ -838,7 +838,7 @@ func oracle(args []string) {
 		b, _ := json.Marshal(v)
 		res.Printf("%s\n", b)
 	}
-	sum := summary{Kind: "summary", Dist: map[string]int{}, Rule: "one evaluation = one tabulated valid file taken through json.Marshal and back by ach.FileFromJSON, (*File).UnmarshalJSON, (every 5th) ReadJSONFile and text->Read->JSON->FileFromJSON, writer output compared byte for byte, stored ValidateOpts and batch offsets compared; non-trivial = the writer accepts the file (it is valid) ; distinct by NACHA text + options + offsets"}
+	sum := summary{Kind: "summary", Dist: map[string]int{}, Samples: []any{}, Rule: "one evaluation = one tabulated valid file taken through json.Marshal and back by ach.FileFromJSON, (*File).UnmarshalJSON, (every 5th) ReadJSONFile and text->Read->JSON->FileFromJSON, writer output compared byte for byte, stored ValidateOpts and batch offsets compared; non-trivial = the writer accepts the file (it is valid) ; distinct by NACHA text + options + offsets"}
 	st := &evalStats{paths: map[string]int{}}
 	seen := map[string]bool{}
 	run := func(f *ach.File, label string) {
@@ -930,6 +930,14 @@ func oracle(args []string) {
 			continue
 		}
 		label := fmt.Sprintf("gen:%s:%d", allKinds[i%len(allKinds)], i)
+		if i%6 == 4 && len(f.IATBatches) == 0 && !hasOffsetEntries(f) {
+			// a file that is valid only under the options stored on it
+			if g := needsOpts(f, r); g != nil {
+				sum.Dist["needs-opts"]++
+				run(g, label+":needs-opts")
+				continue
+			}
+		}
 		if i%3 == 2 {
 			o := randOpts(r)
 			applyOpts(f, o)
@@ -946,6 +954,64 @@ func oracle(args []string) {
 		sum.Dist["path:"+k] = v
 	}
 	put(sum)
+}
+
+// needsOpts turns a generated file into one that is valid only under the option set stored
+// on it: custom trace numbers (not prefixed by the ODFI) or wrong check digits.
+func needsOpts(f *ach.File, r *rng.R) (out *ach.File) {
+	defer func() {
+		if recover() != nil {
+			out = nil
+		}
+	}()
+	g := gen.Clone(f)
+	o := &ach.ValidateOpts{}
+	custom := r.Bool()
+	if custom {
+		o.CustomTraceNumbers = true
+	} else {
+		o.AllowInvalidCheckDigit = true
+	}
+	n := r.Range(1000, 5000)
+	for _, b := range g.Batches {
+		if b.GetHeader().StandardEntryClassCode == ach.ADV || b.Category() != ach.CategoryForward {
+			return nil
+		}
+		for _, e := range b.GetEntries() {
+			if custom {
+				n += r.Range(1, 9)
+				e.TraceNumber = fmt.Sprintf("99887766%07d", n)
+			} else {
+				d, _ := strconv.Atoi(e.CheckDigit)
+				e.CheckDigit = strconv.Itoa((d + 1 + r.Intn(8)) % 10)
+			}
+		}
+	}
+	applyOpts(g, o)
+	for _, b := range g.Batches {
+		if err := b.Create(); err != nil {
+			return nil
+		}
+	}
+	if err := g.Create(); err != nil {
+		return nil
+	}
+	if err := g.Validate(); err != nil {
+		return nil
+	}
+	// only keep it if the options are really needed
+	h := gen.Clone(g)
+	applyOpts(h, nil)
+	stillValid := true
+	for _, b := range h.Batches {
+		if b.Validate() != nil {
+			stillValid = false
+		}
+	}
+	if stillValid && !custom {
+		return nil
+	}
+	return g
 }
 
 // retabulate re-creates the file under its new options without touching batches that
@@ -984,25 +1050,13 @@ func replay(args []string) {
 		fmt.Fprintln(os.Stderr, err)
 		os.Exit(2)
 	}
+	// the stored JSON is informational (it was written by the tree under test at the time);
+	// the case is re-evaluated from its NACHA text, options and offsets
 	bad := 0
-	if c.Input.JSON != "" {
-		g, err := ach.FileFromJSON([]byte(c.Input.JSON))
-		if err != nil {
-			fmt.Printf("FAIL FileFromJSON(case.json): %v\n", firstLine(err.Error()))
-			bad++
-		} else if t, err := writeText(g); err != nil {
-			fmt.Printf("FAIL writing FileFromJSON(case.json): %v\n", firstLine(err.Error()))
-			bad++
-		} else if t != c.Input.ACH {
-			k, what := diffKey(c.Input.ACH, t)
-			fmt.Printf("FAIL text differs after JSON (%s): %s\n", k, what)
-			bad++
-		}
-	}
 	f, err := fromCase(c.Input)
 	if err != nil {
 		fmt.Printf("case text does not read back: %v\n", firstLine(err.Error()))
-	} else if c.Input.JSON == "" && len(c.Input.Offsets) == 0 && !tabulate(f) {
+	} else if len(c.Input.Offsets) == 0 && !hasOffsetEntries(f) && !tabulate(f) {
 		fmt.Println("case is not a valid file")
 	} else {
 		st := &evalStats{paths: map[string]int{}}
@@ -1035,7 +1089,7 @@ func cli(args []string) {
 	}
 	tmp, _ := os.MkdirTemp("", "c07_cli_")
 	defer os.RemoveAll(tmp)
-	sum := summary{Kind: "summary", Dist: map[string]int{}, Rule: "achcli -reformat json FILE.ach | achcli -reformat ach: output equals the library writer's text; distinct by text"}
+	sum := summary{Kind: "summary", Dist: map[string]int{}, Samples: []any{}, Rule: "achcli -reformat json FILE.ach | achcli -reformat ach: output equals the library writer's text; distinct by text"}
 	r := rng.FromEnv(0xC1C1)
 	seen := map[string]bool{}
 	for i := 0; i < *n; i++ {
@@ -1054,6 +1108,9 @@ func cli(args []string) {
 		}
 		sum.Dist[secsOf(f)]++
 		tc := testCase{Label: fmt.Sprintf("cli:%d", i), ACH: t1}
+		if len(sum.Samples) < 3 {
+			sum.Samples = append(sum.Samples, map[string]any{"label": tc.Label, "kinds": secsOf(f), "bytes": len(t1)})
+		}
 		pa, pj := filepath.Join(tmp, "in.ach"), filepath.Join(tmp, "mid.json")
 		os.WriteFile(pa, []byte(t1), 0o600)
 		js, err := exec.Command(*bin, "-reformat", "json", pa).Output()
@@ -1064,12 +1121,19 @@ func cli(args []string) {
 		os.WriteFile(pj, js, 0o600)
 		t2, err := exec.Command(*bin, "-reformat", "ach", pj).Output()
 		if err != nil {
-			put(failure{Kind: "fail", Key: "cli:reformat-ach:error", What: firstLine(err.Error() + " " + string(t2)), Case: tc})
+			k := "cli:reformat-ach:error"
+			if hasCATXZeroAddenda(f) {
+				k = "json:catx:zero-addenda-records" // the return variant: the re-packed count makes the batch invalid
+			}
+			put(failure{Kind: "fail", Key: k, What: firstLine(err.Error() + " " + string(t2)), Case: tc})
 			continue
 		}
 		if string(t2) != t1 {
 			k, what := diffKey(t1, string(t2))
-			if !strings.HasPrefix(k, "json:") {
+			switch {
+			case hasCATXZeroAddenda(f) && catxNameCols.MatchString("text-diff:"+k):
+				k = "json:catx:zero-addenda-records"
+			case !strings.HasPrefix(k, "json:"):
 				k = "cli:text-diff:" + k
 			}
 			put(failure{Kind: "fail", Key: k, What: what, Case: tc})
